@@ -103,8 +103,14 @@ class SimulationAlgorithm(BaseSimulationAlgorithm):
     def __init__(self, settings: AlgorithmSettings):
         super().__init__(settings)
         self.features = settings.parameters["features"]
-        self.visit_type = settings.parameters["visit_parameters"]["visit_type"]
-        self._set_param_study(settings.parameters["visit_parameters"])
+        visit_parameters = settings.parameters["visit_parameters"]
+        if not isinstance(visit_parameters, dict):
+            raise LeaspyAlgoInputError(
+                "Visit parameters (visit_parameters) need to be a dictionary and not : "
+                f"{type(visit_parameters).__name__}"
+            )
+        self.visit_type = visit_parameters.get("visit_type")
+        self._set_param_study(visit_parameters)
         self._validate_algo_parameters()
 
     def _check_features(self):
@@ -320,23 +326,22 @@ class SimulationAlgorithm(BaseSimulationAlgorithm):
             This method updates the `param_study` attribute of the instance in-place.
         """
 
-        if self.visit_type == VisitType.DATAFRAME:
-            patient_number = dict_param["df_visits"].groupby("ID").size().shape[0]
+        # Only copy what is provided: missing or ill-typed entries are reported
+        # afterwards by `_validate_algo_parameters` (as LeaspyAlgoInputError)
+        self.param_study = {}
 
-            self.param_study = {
-                "patient_number": patient_number,
-                "df_visits": dict_param["df_visits"],
-            }
+        if self.visit_type == VisitType.DATAFRAME:
+            if "df_visits" in dict_param:
+                df_visits = dict_param["df_visits"]
+                self.param_study["df_visits"] = df_visits
+                if isinstance(df_visits, pd.DataFrame) and "ID" in df_visits.columns:
+                    self.param_study["patient_number"] = df_visits["ID"].nunique()
 
         elif self.visit_type == VisitType.RANDOM:
             self.param_study = {
-                "patient_number": dict_param["patient_number"],
-                "first_visit_mean": dict_param["first_visit_mean"],
-                "first_visit_std": dict_param["first_visit_std"],
-                "time_follow_up_mean": dict_param["time_follow_up_mean"],
-                "time_follow_up_std": dict_param["time_follow_up_std"],
-                "distance_visit_mean": dict_param["distance_visit_mean"],
-                "distance_visit_std": dict_param["distance_visit_std"],
+                param: dict_param[param]
+                for param, _ in self._PARAM_REQUIREMENTS["random"]
+                if param in dict_param
             }
 
             # Add optional spacing param if provided
